@@ -301,3 +301,45 @@ Definition spec_answers (rules : str) (qs : list query) : list bool :=
 (* boolean oracle evaluated on the answers one implementation object gave to a history *)
 Definition prop_c15_seq_b (rules : str) (qs : list query) (verdicts : list bool) : bool :=
   list_eqb Bool.eqb verdicts (spec_answers rules qs).
+
+(* ------------------------------------------------------------------ front end (round 8)
+   How an application usually OBTAINS its CategoryFilter: not by calling the constructor but through the fluent
+   method SimplePipeline::filterCategory(rules), whose body is  append(CategoryFilterPtr::create(rules)); return *this;
+   tools/s2c/category.py reads that body into [src_cat_front]: which object the pipeline gets and which rule text
+   is handed to its constructor.  The state of the front end is what survives between two requests of one
+   process: the function-local static object of a front end that hands out a shared one, with the rule text it
+   was created from. *)
+Inductive front_obj :=
+| FNew            (* append(CategoryFilterPtr::create(<arg>)) : a NEW filter object per request *)
+| FSharedStatic.  (* static const auto f = CategoryFilterPtr::create(<arg>); append(f) : the object the FIRST request created *)
+Inductive front_arg :=
+| ArgRules        (* the caller's rule text, verbatim *)
+| ArgEmpty.       (* QString() / "" : the rule text is not handed on *)
+Record cat_front := { fr_obj : front_obj; fr_arg : front_arg }.
+Definition front_state := option str.          (* rule text of the static object, if it exists already *)
+Definition front_hand (a : front_arg) (rules : str) : str := match a with ArgRules => rules | ArgEmpty => [] end.
+(* one request filterCategory(rules): new state, rule text of the filter object the pipeline gets *)
+Definition front_obtain (fr : cat_front) (st : front_state) (rules : str) : front_state * str :=
+  match fr_obj fr with
+  | FNew => (st, front_hand (fr_arg fr) rules)
+  | FSharedStatic => match st with
+                     | Some r => (st, r)
+                     | None => (Some (front_hand (fr_arg fr) rules), front_hand (fr_arg fr) rules)
+                     end
+  end.
+Definition front_obtain_all (fr : cat_front) (st : front_state) (earlier : list str) : front_state :=
+  fold_left (fun s r => fst (front_obtain fr s r)) earlier st.
+(* the rule text behind the filter of  SimplePipeline().filterCategory(rules)  after the earlier requests of the process *)
+Definition front_rules (fr : cat_front) (earlier : list str) (rules : str) : str :=
+  snd (front_obtain fr (front_obtain_all fr None earlier) rules).
+(* Pipeline::process: the handlers in order, stop at the first that returns false; the TRAILING handler
+   (.handler(h) after the filters) is reached iff every handler before it returned true *)
+Definition reaches_trailing (before : list bool) : bool := forallb (fun b => b) before.
+(* pipe.filterCategory(rules).handler(h); pipe.process(message): is h reached? *)
+Definition front_reached (cfg : cat_cfg) (fr : cat_front) (earlier : list str) (rules cat : str) (t : mtype) : bool :=
+  reaches_trailing [category_filter cfg (front_rules fr earlier rules) cat t].
+(* ... and for a history of messages put to that ONE pipeline *)
+Definition front_answers (cfg : cat_cfg) (fr : cat_front) (earlier : list str) (rules : str) (qs : list query) : list bool :=
+  map (fun v => reaches_trailing [v]) (object_answers cfg (front_rules fr earlier rules) qs).
+Definition cat_front_goodb (fr : cat_front) : bool :=
+  match fr_obj fr, fr_arg fr with FNew, ArgRules => true | _, _ => false end.
